@@ -66,6 +66,27 @@ def match(chk, fx):
                           "the match length is recorded as %s: it must be a snapshot (result.len = <counter>) taken at "
                           "an accepting state" % lens)
             return
+        if rt is None:
+            # no snapshot inside the scan loop at all: is the result written only after (outside) it?
+            outside = []
+            inside_ids = {id(x) for x in walk(loop)}
+            for x in walk(f.body):
+                if id(x) in inside_ids:
+                    continue
+                if x.get("k") == "MemberExpr" and x["m"]["q"] == "ctpg::recognized_term::len":
+                    par = flow.parent_map(f.body).get(id(x))
+                    if par is not None and par.get("k") in ("BinaryOperator", "CXXOperatorCallExpr") and par.get("op") == "=":
+                        outside.append(x)
+                if x.get("k") in ("CXXConstructExpr", "CXXTemporaryObjectExpr") and \
+                        (x.get("ctor") or {}).get("q", "").startswith("ctpg::recognized_term::recognized_term") and \
+                        len(x.get("c") or []) == 2:
+                    outside.append(x)
+            if outside:
+                chk.violation("MATCH", A.site(f, outside[0]), "MATCH:snapshot-outside-loop",
+                              "the length / winning term are recorded only after the scan loop, for the state in which the "
+                              "scan stopped: an accepting state passed on the way to a longer non-match is forgotten, so the "
+                              "longest-match fallback is lost")
+                return
         if rt is not None and ln is not None:
             # the state variable was not recognised (another way of stepping), but the snapshot was: it must be taken
             # at EVERY accepting state, i.e. its condition may only ask whether the state accepts
